@@ -37,6 +37,9 @@ def run(res, tier, a, prop):
                 results.update(r)
     harnesses = SCAN + (LOC if want_loc else [])
     judge(res, results, harnesses, "samlang-parser / samlang-ast")
+    crash_rows = []
+    if prop == "C05":
+        crash_rows = crash_corpus(res)
     res.coverage.update({
         "states": sum(1 for h in harnesses if results.get(h, {}).get("status") == "SUCCESSFUL") or 1,
         "transitions": len(harnesses),
@@ -47,6 +50,10 @@ def run(res, tier, a, prop):
         "explanation": "states = harnesses proved; each harness runs one hand-written scanner of the real lexer on an arbitrary bounded input",
         "kani_wall_s": round(time.time() - t0, 1),
     })
+    if crash_rows:
+        res.coverage["crash_regression_corpus"] = crash_rows
+        res.assumptions.append("crash_regression_corpus is a gate, not a solver verdict: each input of /verif/corpus_crash (inputs that once crashed the "
+                               "front end, or were reported to) is run through the real parser + checker and must end with a result or diagnostics")
     res.assumptions += [
         "Kani 0.68 / CBMC 6.11 translation of the compiled crate",
         "environment stub: String::from_utf8_lossy returns an empty string in the two comment-scanner harnesses (the comment text is not checked)",
@@ -55,3 +62,27 @@ def run(res, tier, a, prop):
     ]
     for h in harnesses:
         res.sample({"harness": h, **{k: v for k, v in results.get(h, {}).items() if k in ("status", "time", "covers_summary")}})
+
+
+def crash_corpus(res):
+    """C05 gate (not a solver verdict): inputs that once made the front end panic must now produce a result or
+    diagnostics.  The parser and checker proper are outside what the Kani harnesses can encode."""
+    import glob
+    import subprocess
+    from vlib import ws
+    from vlib.common import VERIF
+    rows = []
+    with Scratch(os.environ.get("VERIF_SLOT", "ws")) as sc:
+        ws.inject(sc)
+        drv = ws.build_driver(sc)
+        for f in sorted(glob.glob(os.path.join(VERIF, "corpus_crash", "*.sam"))):
+            try:
+                p = subprocess.run([drv, "typecheck", "Main=" + f], capture_output=True, text=True, timeout=60)
+                st = "ok" if p.returncode == 0 and p.stdout.strip().startswith("{") else "crash (exit %d)" % p.returncode
+            except subprocess.TimeoutExpired:
+                st = "hang (> 60 s)"
+            rows.append({"input": os.path.basename(f), "status": st})
+            if st != "ok":
+                res.violation("the front end does not survive the input %s: %s" % (os.path.basename(f), st),
+                              {"property": "C05", "input_file": f, "input": open(f, errors="replace").read()[:400], "status": st})
+    return rows
